@@ -1,7 +1,222 @@
-use crate::State;
+// C17 / C18: one entry point on one (possibly damaged) input, in the isolated worker.
+// Records outcome (value / fail / panic), peak and residual heap, wall time.
+use crate::alloc;
+use crate::ops_patch::{casedir, materialize, unhex};
 use crate::util::*;
-use serde_json::Value;
+use crate::{State, guarded};
+use serde_json::{Value, json};
+use std::time::Instant;
 
-pub fn run(_st: &mut State, op: &str, _cmd: &Value) -> Value {
-    toolerror(&format!("unknown op {op}"))
+fn some_or_fail<T>(o: Option<T>) -> Value {
+    match o {
+        Some(x) => {
+            drop(x);
+            json!({"outcome": "value"})
+        }
+        None => json!({"outcome": "fail"}),
+    }
+}
+
+fn call(st: &mut State, entry: &str, input: &[u8], cmd: &Value) -> Value {
+    use physis::common::Platform;
+    match entry {
+        // ---- C17: user and launcher files
+        "cfg" => some_or_fail(physis::cfg::ConfigFile::from_existing(input)),
+        "exl" => some_or_fail(physis::exl::EXL::from_existing(input)),
+        "fiin" => some_or_fail(physis::fiin::FileInfo::from_existing(input)),
+        "chardat" => some_or_fail(physis::chardat::CharacterData::from_existing(input)),
+        "gearsets" => some_or_fail(physis::gearsets::GearSets::from_existing(input)),
+        "log" => some_or_fail(physis::log::ChatLog::from_existing(input)),
+        "patchlist.boot" | "patchlist.game" => {
+            let kind = || if entry.ends_with("boot") { physis::patchlist::PatchListType::Boot } else { physis::patchlist::PatchListType::Game };
+            let text = String::from_utf8_lossy(input).to_string();
+            let pl = physis::patchlist::PatchList::from_string(kind(), &text);
+            let _ = pl.to_string(kind());
+            json!({"outcome": "value"})
+        }
+        "patch.apply" => {
+            let base = casedir(st, cmd, "fpatch");
+            let mut data = base.clone();
+            data.push("data");
+            materialize(&data, &cmd["tree0"]);
+            if let Some(ro) = cmd["readonly_dir"].as_str() {
+                let mut p = data.clone();
+                p.push(ro);
+                let _ = std::fs::create_dir_all(&p);
+            }
+            let mut pf = base.clone();
+            pf.push("p.patch");
+            std::fs::write(&pf, input).unwrap();
+            let r = physis::patch::ZiPatch::apply(data.to_str().unwrap(), pf.to_str().unwrap());
+            let _ = std::fs::remove_dir_all(&base);
+            match r {
+                Ok(()) => json!({"outcome": "value", "ok": true}),
+                Err(_) => json!({"outcome": "fail"}),
+            }
+        }
+        "bootdata" | "gamedata.open" | "frontier_url" | "index.open" | "dat.read" => {
+            // path based entry points: the input is written to a file / laid out as a directory first
+            let base = casedir(st, cmd, "fpath");
+            let r = match (entry, cmd["path_fault"].as_str().unwrap_or("none")) {
+                ("bootdata", pf) => {
+                    let mut d = base.clone();
+                    d.push("boot");
+                    if pf != "missing" {
+                        std::fs::create_dir_all(&d).unwrap();
+                        if pf != "nover" {
+                            let mut v = d.clone();
+                            v.push("ffxivboot.ver");
+                            std::fs::write(&v, input).unwrap();
+                        }
+                    }
+                    some_or_fail(physis::bootdata::BootData::from_existing(d.to_str().unwrap()))
+                }
+                ("frontier_url", pf) => {
+                    let mut f = base.clone();
+                    f.push("launcher.exe");
+                    if pf == "directory" {
+                        std::fs::create_dir_all(&f).unwrap();
+                    } else if pf != "missing" {
+                        std::fs::write(&f, input).unwrap();
+                    }
+                    some_or_fail(physis::execlookup::extract_frontier_url(f.to_str().unwrap()))
+                }
+                ("index.open", pf) => {
+                    let mut f = base.clone();
+                    f.push("000000.win32.index");
+                    if pf != "missing" {
+                        std::fs::write(&f, input).unwrap();
+                    }
+                    some_or_fail(physis::sqpack::SqPackIndex::from_existing(f.to_str().unwrap()))
+                }
+                ("dat.read", pf) => {
+                    let mut f = base.clone();
+                    f.push("000000.win32.dat0");
+                    if pf != "missing" {
+                        std::fs::write(&f, input).unwrap();
+                    }
+                    match physis::sqpack::SqPackData::from_existing(f.to_str().unwrap()) {
+                        Some(mut d) => some_or_fail(d.read_from_offset(geti(cmd, "off") as u64)),
+                        None => json!({"outcome": "fail"}),
+                    }
+                }
+                _ => {
+                    // gamedata.open: a directory tree given as _fs, then exists / extract on the listed paths
+                    let mut g = base.clone();
+                    g.push("game");
+                    std::fs::create_dir_all(&g).unwrap();
+                    crate::ops_archive::write_fs(&g, &cmd["_fs"]);
+                    match physis::gamedata::GameData::from_existing(Platform::Win32, g.to_str().unwrap()) {
+                        Some(mut gd) => {
+                            let mut any = false;
+                            for p in cmd["paths"].as_array().cloned().unwrap_or_default() {
+                                let p = get_str(&p);
+                                any |= gd.exists(&p);
+                                any |= gd.extract(&p).is_some();
+                                any |= gd.find_offset(&p).is_some();
+                            }
+                            json!({"outcome": if any { "value" } else { "fail" }})
+                        }
+                        None => json!({"outcome": "fail"}),
+                    }
+                }
+            };
+            let _ = std::fs::remove_dir_all(&base);
+            r
+        }
+        // ---- C18: game assets
+        "mdl" => some_or_fail(physis::model::MDL::from_existing(input)),
+        "mtrl" => some_or_fail(physis::mtrl::Material::from_existing(input)),
+        "shpk" => match physis::shpk::ShaderPackage::from_existing(input) {
+            Some(s) => {
+                for sel in [0u32, 1, 0xFFFFFFFF, 0x12345678] {
+                    let _ = s.find_node(sel);
+                }
+                json!({"outcome": "value"})
+            }
+            None => json!({"outcome": "fail"}),
+        },
+        "tex" => some_or_fail(physis::tex::Texture::from_existing(input)),
+        "exh" => some_or_fail(physis::exh::EXH::from_existing(input)),
+        "exd" => {
+            // the damaged data file is read with its (valid) header: every listed id and a few more
+            let Some(exh) = physis::exh::EXH::from_existing(&unhex(cmd["_exh"].as_str().unwrap_or(""))) else {
+                return json!({"outcome": "toolerror", "msg": "bad exh"});
+            };
+            match physis::exd::EXD::from_existing(input) {
+                Some(d) => {
+                    let mut any = false;
+                    for id in cmd["ids"].as_array().cloned().unwrap_or_default() {
+                        any |= d.read_row(&exh, id.as_u64().unwrap_or(0) as u32).is_some();
+                    }
+                    json!({"outcome": if any { "value" } else { "fail" }})
+                }
+                None => json!({"outcome": "fail"}),
+            }
+        }
+        "sklb" => some_or_fail(physis::skeleton::Skeleton::from_existing(input)),
+        "pbd" => match physis::pbd::PreBoneDeformer::from_existing(input) {
+            Some(p) => {
+                for (a, b) in [(101u16, 201u16), (201, 101), (101, 9999), (0, 101), (101, 301), (301, 101)] {
+                    let _ = p.get_deform_matrices(a, b);
+                }
+                json!({"outcome": "value"})
+            }
+            None => json!({"outcome": "fail"}),
+        },
+        "cmp" => some_or_fail(physis::cmp::CMP::from_existing(input)),
+        "tera" => some_or_fail(physis::tera::Terrain::from_existing(input)),
+        "stm" => some_or_fail(physis::stm::StainingTemplate::from_existing(input)),
+        "dic" => some_or_fail(physis::dic::Dictionary::from_existing(input)),
+        "lgb" => some_or_fail(physis::layer::LayerGroup::from_existing(input)),
+        "avfx" => some_or_fail(physis::avfx::Avfx::from_existing(input)),
+        "uld" => some_or_fail(physis::uld::Uld::from_existing(input)),
+        "sgb" => some_or_fail(physis::sgb::Sgb::from_existing(input)),
+        "scd" => some_or_fail(physis::scd::Scd::from_existing(input)),
+        "hwc" => some_or_fail(physis::hwc::Hwc::from_existing(input)),
+        "iwc" => some_or_fail(physis::iwc::Iwc::from_existing(input)),
+        "tmb" => some_or_fail(physis::tmb::Tmb::from_existing(input)),
+        "skp" => some_or_fail(physis::skp::Skp::from_existing(input)),
+        "schd" => some_or_fail(physis::schd::Schd::from_existing(input)),
+        "phyb" => some_or_fail(physis::phyb::Phyb::from_existing(input)),
+        "pap" => some_or_fail(physis::pap::Pap::from_existing(input)),
+        "sqdb" => some_or_fail(physis::sqpack::SqPackDatabase::from_existing(input)),
+        _ => json!({"outcome": "toolerror", "msg": format!("unknown entry {entry}")}),
+    }
+}
+
+pub fn run(st: &mut State, op: &str, cmd: &Value) -> Value {
+    if op != "fault.run" {
+        return toolerror(&format!("unknown op {op}"));
+    }
+    let entry = cmd["entry"].as_str().unwrap_or("").to_string();
+    let input = unhex(cmd["_hex"].as_str().unwrap_or(""));
+    let live0 = alloc::live();
+    alloc::reset_peak();
+    let t0 = Instant::now();
+    let mut r = guarded(|| call(st, &entry, &input, cmd));
+    let ms = t0.elapsed().as_millis() as u64;
+    let peak = alloc::peak().saturating_sub(live0);
+    let residual = alloc::live().saturating_sub(live0);
+    if let Some(o) = r.as_object_mut() {
+        o.insert("ms".into(), json!(ms));
+        o.insert("peak".into(), json!(peak.min(i32::MAX as usize)));
+        o.insert("residual".into(), json!(residual.min(i32::MAX as usize)));
+        if let Some(m) = o.get("msg").and_then(|m| m.as_str()).map(|s| s.to_string()) {
+            // message with numbers normalised: part of the abstract signature of a finding
+            let norm: String = m.chars().map(|c| if c.is_ascii_digit() { 'N' } else { c }).collect();
+            let mut out = String::new();
+            for c in norm.chars() {
+                if !(c == 'N' && out.ends_with('N')) {
+                    out.push(c);
+                }
+            }
+            o.insert("sigmsg".into(), json!(out.chars().take(80).collect::<String>()));
+        }
+        if let Some(site) = o.get("site").and_then(|m| m.as_str()).map(|s| s.to_string()) {
+            let file = site.split(':').next().unwrap_or("").rsplit("/src/").next().unwrap_or("").to_string();
+            o.insert("sigfile".into(), json!(file));
+        }
+    }
+    r
 }
